@@ -549,7 +549,7 @@ func (ac *apiCtr) cancelledByUser() bool {
 
 func scenC15(w *vsim.World, spec *vsim.Spec) {
 	s := newSim(w, spec, scenOpts{prop: "C15", maxTypes: 3, boundaryPM: 100})
-	s.populate(maxContainers(spec))
+	s.populate(maxContainers(spec) / 2)
 	s.startDispatcher()
 	// a dispatcher restart at a seeded point in about half of the runs
 	s.evOn["restart"] = false
@@ -597,17 +597,20 @@ func scenC15(w *vsim.World, spec *vsim.Spec) {
 		s.lastFault = time.Now()
 	}
 	quietStart := time.Now()
-	// B: two orders of magnitude above what the same workload needs without faults. The
-	// fault-free need is bounded from the drawn knobs and the largest drawn process times.
+	// B: generous multiple of what the same workload needs without faults. The fault-free
+	// need is bounded from the drawn knobs and process times: every container needs at most
+	// a boot (45 s) plus its start lag and run time plus a probe and a poll interval, and
+	// ceil(n/quota) such waves run one after the other. B = 100 x the typical need (a
+	// tenth of that worst case), at least 2 h and at most 6 h of simulated time.
 	n := len(s.api.uuids) + s.toArrive
-	perCtr := 45*time.Second + 150*time.Second + s.maxRun() + s.k.ProbeInterval + s.k.PollInterval
+	perCtr := 45*time.Second + s.maxRun() + s.k.ProbeInterval + s.k.PollInterval
 	waves := (n + s.k.Quota - 1) / s.k.Quota
-	faultFree := time.Duration(waves)*perCtr + s.k.TimeoutIdle + 40*time.Second
-	B := 100 * faultFree
+	worst := time.Duration(waves)*perCtr + s.k.TimeoutIdle + 40*time.Second
+	B := 10 * worst
 	if B < 2*time.Hour {
 		B = 2 * time.Hour
 	}
-	if max := 30 * time.Hour; B > max {
+	if max := 6 * time.Hour; B > max {
 		B = max
 	}
 	s.logf("quiet phase begins; B=%s", B)
